@@ -103,6 +103,14 @@ Theorem C15_pending_limit_keeps_run_partial : forall (o : oracle) (p p' : pool),
 Proof. exact pe_pending_limit_pn. Qed.
 Print Assumptions C15_pending_limit_keeps_run_partial.
 
+(* 1, ordering half, PARTIAL (second piece): promoteTx of the transaction whose nonce is the virtual nonce (what
+      promoteExecutables takes from Ready) appends it to the run and advances State().GetNonce by one; the bound is
+      the uint64 range of nonce+1 *)
+Theorem C15_promote_next_keeps_run_partial : forall (p : pool) (a : Z) (t : tx),
+  pn_ok p -> tnonce t = pn_get p a -> 0 <= tnonce t < two64 - 1 -> pn_ok (promote_tx p a t).
+Proof. exact promote_tx_pn. Qed.
+Print Assumptions C15_promote_next_keeps_run_partial.
+
 Example C15_pending_limit_example :
   exists p, run (new_pool cfg_slots 1 [(0, (0, 1000000000)); (1, (0, 1000000000))] 1000000) slots_history = Ok p /\
             map (fun kv => (fst kv, map tnonce (items (snd kv)))) (pending p) = [(0, [0; 1]); (1, [0; 1])] /\
